@@ -43,6 +43,7 @@ type ReloadableOrchestrator struct {
 	openSinks       map[*reloadableSinkState]struct{} // all open sinks, to be re-created at reloading
 	openSinksMutex  *sync.Mutex                       // protect the openSinks map itself
 	downstreamMutex *xsync.RBMutex                    // read-lock for using/adding downstream sinks, write-lock for renewing the downstream Orchestrator
+	shutDown        bool                              // set by Shutdown under the write-lock: no reload may take place any more
 }
 
 // NewReloadableOrchestrator creates a reloadable orchestrator wrapping the given downstream orchestrator
@@ -97,6 +98,12 @@ func (orc *ReloadableOrchestrator) NewSink(clientAddress string, clientNumber ba
 
 // Shutdown shuts down both of the reloadable orchestrator and the current downstream orchestrator
 func (orc *ReloadableOrchestrator) Shutdown() {
+	// wait for a reload in progress and keep later ones out: a SIGHUP may arrive at any time, also during the shutdown,
+	// and the downstream orchestrator must be shut down exactly once
+	orc.downstreamMutex.Lock()
+	defer orc.downstreamMutex.Unlock()
+
+	orc.shutDown = true
 	orc.downstream.Shutdown()
 }
 
@@ -112,6 +119,12 @@ func (orc *ReloadableOrchestrator) reload() {
 	// wait and then block all ReloadableSink(s)
 	orc.downstreamMutex.Lock()
 	defer orc.downstreamMutex.Unlock()
+
+	if orc.shutDown {
+		orc.logger.Warn("failed to reload: the orchestrator has been shut down")
+		reloadFailureCounter.Inc()
+		return
+	}
 
 	orc.openSinksMutex.Lock()
 	defer orc.openSinksMutex.Unlock()
